@@ -1,4 +1,5 @@
 import BddVerif.Props.C13
+import BddVerif.Props.C13Count
 #print axioms B.Props.C13.read_text_total
 #print axioms B.Props.C13.read_text_io_total
 #print axioms B.Props.C13.read_bytes_total
@@ -17,3 +18,5 @@ import BddVerif.Props.C13
 #print axioms B.Props.C13.wf_ops_accept_validate
 #print axioms B.Serial.showNat_parseUInt
 #print axioms B.Serial.dfs_total
+#print axioms B.Props.C13.from_nodes_count_agrees
+#print axioms B.Props.C13.validate_count_agrees
